@@ -206,7 +206,7 @@ pub fn run(ctx: &Ctx) -> Report {
         let leaf = prop_oneof![6 => gen::supported_leaf(), 1 => gen::text_leaf(), 3 => option().prop_map(E::G)];
         let strat = (
             prop_oneof![4 => proptest::collection::vec(option(), 0..4), 1 => proptest::collection::vec(option(), 4..10)],
-            prop_oneof![1 => Just(None), 9 => gen::expr_over(leaf.boxed(), 5, 16, true).prop_map(|t| {
+            prop_oneof![1 => Just(None), 9 => gen::related(gen::expr_over(leaf.boxed(), 5, 16, true), true).prop_map(|t| {
                 // an option as first word would belong to the leading run: put a test in front
                 if matches!(t.leaves().first(), Some(E::G(_))) { Some(E::and(E::T(Tst::Name("first".into())), t)) } else { Some(t) }
             })],
@@ -215,6 +215,34 @@ pub fn run(ctx: &Ctx) -> Report {
         run_prop(&mut st, ctx.seed, "C13", shard as u64, cases / shards as u32, &strat, |(l, t, c)| judge(l, t, c), |(l, t, c)| case_json(l, t, c));
         st
     });
+    // many options inside one expression (5..300), their values changing along the way: the last
+    // occurrence wins however many came before it, each becomes -true
+    let mut stn = Stats::new();
+    for n in [5usize, 8, 15, 16, 17, 18, 31, 32, 33, 64, 65, 100, 255, 256, 257, 300] {
+        for variant in 0..4usize {
+            let mut t = E::T(Tst::Name("first".into()));
+            for i in 0..n {
+                let opt = match (i + variant) % 4 {
+                    0 => E::G(Glob::Threads((i % 7) as u32 + 1)),
+                    1 if variant % 2 == 0 || i == n - 2 => E::G(Glob::Depth),
+                    1 => E::G(Glob::Threads(9)),
+                    2 => E::G(Glob::Threads((n - i) as u32)),
+                    _ => E::T(Tst::Uid(Cmp::Eq, i as u32)),
+                };
+                t = match (i + variant) % 3 {
+                    0 => E::and(t, opt),
+                    1 => E::or(t, opt),
+                    _ => E::and(t, E::not(opt)),
+                };
+            }
+            let leading = if variant == 3 { vec![Glob::Threads(77)] } else { vec![] };
+            let choices: Vec<u16> = vec![];
+            let v = judge(&leading, &Some(t.clone()), &choices);
+            stn.record(&v, stable_hash(&(n, variant)), true, || json!({"kind": "options", "what": format!("{n} operands of which three quarters are options, variant {variant}"), "leading": leading.iter().map(|g| format!("{:?}", E::G(g.clone()))).collect::<Vec<_>>(), "tree": term::encode_expr(&t), "choices": choices}));
+        }
+    }
+    stn.samples.truncate(1);
+    total.merge(stn);
     // interaction triples: three leaf kinds (every kind of primary, options too) under every operator
     // skeleton, after no leading run or a short one, canonical or in a layout variant
     let mut kinds = crate::combo::all_kinds();
